@@ -52,3 +52,14 @@ func VerifMeta(v *VerifFile) string {
 	}
 	return m.meta
 }
+
+// VerifMunmapMark: with on, unmapping only marks the region closed (several
+// threads may still hold pointers into it: a late access is then reported by
+// the atomics shim instead of faulting); with off, the real munmap.
+func VerifMunmapMark(on bool) {
+	if on {
+		VerifConcInit()
+	} else {
+		munmap = mmap.Munmap
+	}
+}
